@@ -70,7 +70,7 @@ def cpio_newc(entries):
     return out + one(b"TRAILER!!!", 0, b"")
 
 
-def files_package(dirnames, files, declared_sizes=None):
+def files_package(dirnames, files, declared_sizes=None, archive=None):
     """complete package bytes: dirnames = [bytes], files = [(dirindex, basename, raw mode, linkto, content)]"""
     import struct
     T = {"BASENAMES": 1117, "DIRINDEXES": 1116, "DIRNAMES": 1118, "FILEMODES": 1030, "FILEUSERNAME": 1039, "FILEGROUPNAME": 1040, "FILEDIGESTS": 1035,
@@ -102,7 +102,7 @@ def files_package(dirnames, files, declared_sizes=None):
         add(T["DIRNAMES"], "StringArray", b"".join(d + b"\0" for d in dirnames), len(dirnames))
     ent.sort()
     content = cpio_newc([(b"." + (dirnames[f[0]] if f[0] < len(dirnames) else b"/") + f[1], f[2], f[4]) for f in files])
-    return lead() + sig_header([], b"") + header(ent, st) + content
+    return lead() + sig_header([], b"") + header(ent, st) + (archive if archive is not None else content)
 
 
 def check_header_bytes(b, region):
